@@ -1001,5 +1001,5 @@ def coverage(prop, results):
                      "real", "statistical tests": "stubs (driver) / real (e2e)",
                      "Berlekamp-Massey": "real C++ via ctypes shim",
                      "time.time": "SimClock"},
-      "_pvals": pvals,
+      "pvalue_subtests": len(pvals),
   }
